@@ -25,7 +25,11 @@ EXPLANATION = ("Deductive part (counted under obligations/discharged): class inv
                "W_H == W^H, full_W_H == (W^H H_kk full_F)^-1 W^H built from the CURRENT precoders and power, full_W == full_W_H^H, "
                "Ns == columns of F; randomizeF/set_precoders(full_F) yield unit-norm F.  Matrices are fully symbolic complex "
                "(K=2, 2x2, 1 stream; and 2 streams for the filter identity).  "
-               "The optimisation claims (solve completes, closed form nulls interference, leakage never increases, MMSE meets the power "
+               "Closed-form solver: with solve / eig / pinv / leig as abstract callees the alignment matrix, the three precoders and the "
+               "three filter requests have exactly the structure of the alignment solution; lemma L-ALIGN (Lean 4 + Mathlib, thorough tier) "
+               "turns that structure into alignment at every receiver, i.e. a filter orthogonal to the aligned direction nulls both "
+               "interferers (the selector contract of leig is proved in C20).  "
+               "The optimisation claims (solve completes, closed form nulls interference numerically, leakage never increases, MMSE meets the power "
                "constraint, full_W_H H_kk full_F = I numerically) are theorems about eigen-subspaces/Newton searches outside the "
                "solver's reach: bounded run-time contract checks on the real solvers (labelled bounded, never counted as proved) - "
                "hence level 'other'.")
